@@ -52,6 +52,8 @@ struct FdEnt {
     bool canfd_enabled = false;
     int bus = -1;
     std::deque<CanRec> canq;
+    std::vector<struct can_filter> can_filters;  // CAN_RAW_FILTER (empty = the default filter that accepts every data frame)
+    bool can_filter_set = false;
     uint32_t can_err_mask = 0;    // CAN_RAW_ERR_FILTER: classes of error message frames this socket wants (0 = none, the default)
     uint64_t rcvtimeo_ns = 0;     // SO_RCVTIMEO: a blocking read/recv gives up with EAGAIN after this long (0 = never)
     uint64_t tx_busy_until = 0;   // CAN transmit queue model (see World::can_txq_cap)
